@@ -587,6 +587,29 @@ def obligations(tier):
                         "reference / genomic sequence) is answered or refused with a BioCantorException / ValueError, never with an internal error",
                    bounds="2 member kinds x 4 own parents x 4 owner parents x 10 earlier questions (closed by the solver)",
                    examples=[dict(kind=0, own=1, owner=3, pre=8), dict(kind=1, own=0, owner=1, pre=0)]))
+    def cds_within_exons():
+        """a coding transcript is built only when every CDS position is an exon position (the constructor compares more than the outer bounds); otherwise the
+        documented InvalidCDSIntervalError - never a transcript whose CDS cannot be placed on it"""
+        from inscripta.biocantor.exc import InvalidCDSIntervalError
+
+        def fn(s0, l0, g1, l1, cs, cl, c2s, c2l, two):
+            ex = [(s0, s0 + l0), (s0 + l0 + g1, s0 + l0 + g1 + l1)]
+            cds = [(cs, cs + cl)] + ([(c2s, c2s + c2l)] if two else [])
+            inside = AND(*[OR(*[AND(e[0] <= c[0], c[1] <= e[1]) for e in ex]) for c in cds])
+            try:
+                t = TranscriptInterval([e[0] for e in ex], [e[1] for e in ex], PLUS, [c[0] for c in cds], [c[1] for c in cds], [CDSFrame.ZERO] * len(cds), guid=1)
+            except InvalidCDSIntervalError:
+                return NOT(inside)
+            return AND(inside, t.is_coding, t.cds_start == cds[0][0], t.cds_end == cds[-1][1], t.cds_pos_to_transcript(0) >= 0)
+
+        return fn
+
+    out.append(Obl("cds_blocks_within_exons", cds_within_exons(), dict(s0=int, l0=int, g1=int, l1=int, cs=int, cl=int, c2s=int, c2l=int, two=bool),
+                   lambda s0, l0, g1, l1, cs, cl, c2s, c2l, two: s0 >= 0 and l0 >= 1 and g1 >= 1 and l1 >= 1 and cs >= 0 and cl >= 1 and c2l >= 1 and c2s >= cs + cl, budget=600, cost=40,
+                   desc="two-exon transcript with one or two CDS blocks anywhere: built exactly when every CDS block lies inside an exon (then coding, with the given CDS "
+                        "bounds and a placeable first CDS position), refused with InvalidCDSIntervalError otherwise - including CDS blocks inside the intron, which the outer-"
+                        "bounds comparison alone lets through", bounds="2 exons (intron >= 1), 1..2 CDS blocks, unbounded symbolic coordinates",
+                   examples=[dict(s0=0, l0=10, g1=30, l1=10, cs=5, cl=5, c2s=30, c2l=1, two=True), dict(s0=0, l0=10, g1=30, l1=10, cs=5, cl=5, c2s=40, c2l=5, two=True)]))
     out.append(Obl("deep_location", deep_location(), dict(n=int), lambda n: n == 2 or n == 400 or n == 1200 or n == 5000, budget=120, cost=10,
                    desc="locations with 2 / 400 / 1200 / 5000 blocks answer positional queries without RecursionError", bounds="4 sizes (concrete)",
                    examples=[dict(n=400)]))
